@@ -429,7 +429,144 @@ def m7(run: Run, prog: Program):
 
 
 
+SPARSE_MAKERS = {"tocsc", "tocsr", "tolil", "tocoo", "todia", "tobsr", "todok"}
+SPARSE_FUNCS = ("csc_matrix", "csr_matrix", "coo_matrix", "lil_matrix",
+                "dia_matrix", "dok_matrix", "bsr_matrix", "csc_array",
+                            "csr_array", "identity", "eye", "diags", "spdiags",
+                            "block_diag", "kron")
+DENSE_MAKERS = {"toarray", "todense", "get_adjacency_dense"}
+DENSE_FUNCS = {"np.zeros", "np.ones", "np.empty", "np.array", "np.asarray", "np.full",
+               "np.zeros_like", "np.ones_like", "np.empty_like", "np.identity", "np.eye",
+               "np.diag", "np.outer", "np.dot", "np.matmul", "np.abs", "np.triu",
+               "np.tril", "np.ascontiguousarray"}
+KEEPS_KIND = {"astype", "copy", "transpose", "conj", "conjugate"}
+
+
+def m8(run: Run, prog: Program):
+    """`x * y` between two matrices is the matrix product for scipy sparse
+    matrices and the element-wise product for ndarrays.  An operand pair that
+    is sparse on one path and dense on another (e.g. a helper returning the
+    sparse adjacency or a dense link-attribute matrix) makes one expression
+    compute two different functions."""
+    import ast
+
+    def store_values(C, attr):
+        out = []
+        for c in C.mro:
+            for m in list(c.methods.values()) + [g for pr in c.props.values()
+                                                 for g in pr.values()]:
+                for n in ast.walk(m.node):
+                    if isinstance(n, ast.Assign) and len(n.targets) == 1 and \
+                            isinstance(n.targets[0], ast.Attribute) and \
+                            n.targets[0].attr == attr and \
+                            isinstance(n.targets[0].value, ast.Name) and \
+                            m.params and n.targets[0].value.id == m.params[0]:
+                        out.append((n.value, m))
+        return out
+
+    def kinds(e, f, depth=0):
+        if depth > 6 or e is None:
+            return set()
+        C = f.cls
+        sn = f.params[0] if f.kind in ("method", "getter", "setter") and f.params else None
+        if isinstance(e, ast.IfExp):
+            return kinds(e.body, f, depth + 1) | kinds(e.orelse, f, depth + 1)
+        if isinstance(e, ast.Attribute):
+            if e.attr in ("T", "real", "imag"):
+                return kinds(e.value, f, depth + 1)
+            if e.attr == "A" and not (isinstance(e.value, ast.Name) and e.value.id == sn):
+                return {"dense"}
+            if isinstance(e.value, ast.Name) and e.value.id == sn and C is not None:
+                pr = prog.lookup_prop(C, e.attr)
+                if pr is not None and "get" in pr:
+                    g = pr["get"]
+                    out = set()
+                    for r in ast.walk(g.node):
+                        if isinstance(r, ast.Return):
+                            out |= kinds(r.value, g, depth + 1)
+                    return out
+                out = set()
+                for v, m in store_values(C, e.attr):
+                    out |= kinds(v, m, depth + 1)
+                return out
+            return set()
+        if isinstance(e, ast.Call):
+            fn = e.func
+            name = ast.unparse(fn)
+            if name in DENSE_FUNCS:
+                return {"dense"}
+            if isinstance(fn, ast.Attribute):
+                if fn.attr in SPARSE_MAKERS:
+                    return {"sparse"}
+                if fn.attr in DENSE_MAKERS:
+                    return {"dense"}
+                if fn.attr in KEEPS_KIND:
+                    return kinds(fn.value, f, depth + 1)
+                if fn.attr in SPARSE_FUNCS and isinstance(fn.value, ast.Name) and \
+                        fn.value.id in ("sp", "sparse", "scipy"):
+                    return {"sparse"}
+                if isinstance(fn.value, ast.Name) and fn.value.id == sn and C is not None:
+                    g = prog.lookup(C, fn.attr)
+                    if g is not None and g is not f:
+                        out = set()
+                        for r in ast.walk(g.node):
+                            if isinstance(r, ast.Return):
+                                out |= kinds(r.value, g, depth + 1)
+                        return out
+            return set()
+        if isinstance(e, ast.Name):
+            out = set()
+            if e.id in f.params:
+                return set()
+            for n in ast.walk(f.node):
+                if isinstance(n, ast.Assign) and len(n.targets) == 1 and \
+                        isinstance(n.targets[0], ast.Name) and n.targets[0].id == e.id \
+                        and n.value is not e:
+                    out |= kinds(n.value, f, depth + 1)
+                elif isinstance(n, ast.AugAssign) and isinstance(n.target, ast.Name) \
+                        and n.target.id == e.id:
+                    return set()
+            return out
+        return set()
+
+    n_mult = n_typed = 0
+    for f in sorted(prog.functions(), key=lambda g: (g.module.relpath, g.node.lineno)):
+        if "core/" not in f.module.relpath and "climate/" not in f.module.relpath \
+                and "funcnet/" not in f.module.relpath:
+            continue
+        for b in ast.walk(f.node):
+            if not (isinstance(b, ast.BinOp) and isinstance(b.op, ast.Mult)):
+                continue
+            n_mult += 1
+            try:
+                kl, kr = kinds(b.left, f), kinds(b.right, f)
+            except RecursionError:
+                continue
+            if not kl or not kr:
+                continue
+            n_typed += 1
+            bad = {"sparse", "dense"} <= kl and {"sparse", "dense"} <= kr
+            inst = f"{f.qualname}:{ast.unparse(b)[:40]}:{b.lineno}"
+            run.oblige("M8", inst, not bad, sample={
+                "where": f"{f.module.relpath}:{b.lineno}", "left": sorted(kl),
+                "right": sorted(kr)})
+            if bad:
+                run.add("M8", f"{f.qualname}/{ast.unparse(b)[:40]}",
+                        f"{f.module.relpath}:{b.lineno}",
+                        f"{f.qualname} multiplies `{ast.unparse(b.left)[:40]}` and "
+                        f"`{ast.unparse(b.right)[:40]}` with `*`; both are a scipy sparse "
+                        f"matrix on one path and a dense ndarray on another, so the "
+                        f"same expression is the matrix product in one case and the "
+                        f"element-wise product in the other")
+    run.extra["M8"] = {"products_seen": n_mult, "both_operands_typed": n_typed}
+    run.floor("M8 products scanned", n_mult, 200, hard=True)
+    if n_typed == 0:
+        run.oblige("M8", "no-matrix-product-typed", True, nontrivial=False)
+
+
 def check(run: Run, prog: Program, cy: CyProgram, sites):
+    run.rule("M8", "`*` is never applied to two matrices that are scipy sparse on one "
+             "path and dense on another (matrix product vs element-wise product)")
     run.rule("M5", "pair-count normalisers keep both factors in the denominator "
              "(no `x / D * (D - 1)`)")
     run.rule("M1", "clique-counting kernels test every pair of enumerated neighbour "
@@ -462,5 +599,6 @@ def check(run: Run, prog: Program, cy: CyProgram, sites):
                     f"allocates it with {detail['init']} ({verdict})")
     m5(run, prog)
     m7(run, prog)
+    m8(run, prog)
     nm4 = m4(run, prog, "M4", "core/network.py")
     run.floor("override pairs checked (repo-wide)", nm4, 100, hard=True)
